@@ -3,10 +3,11 @@
 
     Model: VNv.NvSim (driver / GPUs / SMs / sub-cores / akita connections and
     event queues), VNv.NvTrace (trace file grammar and tracereader).
-    Proofs: NvSimProofs, NvSimWake, NvSimThm, NvSimPot, NvSimTerm, NvUniform, NvTraceProofs.
+    Proofs: NvSimProofs, NvSimWake, NvSimThm, NvSimPot, NvSimTerm, NvUniform, NvTraceProofs,
+    NvLayout (layouts of a kernel file), NvLayoutProofs.
     Statements only; every proof is an [exact]. *)
 From Coq Require Import List NArith ZArith Bool Arith String.
-From VNv Require Import NvSim NvSimProofs NvSimWake NvSimThm NvSimPot NvSimTerm NvUniform NvTrace NvTraceProofs.
+From VNv Require Import NvSim NvSimProofs NvSimWake NvSimThm NvSimPot NvSimTerm NvUniform NvTrace NvTraceProofs NvLayout NvLayoutProofs.
 Import ListNotations.
 Open Scope Z_scope.
 
@@ -186,8 +187,59 @@ Print Assumptions parse_print_exact.
     instructions (also 0). *)
 Theorem parse_print_kernel_roundtrip : forall k : kernel,
   valid_kernel k -> parse_kernel (print_kernel k) = Some (k_hdr k, map expected_block (k_blocks k)).
-Proof. exact NvTraceProofs.parse_print_kernel_roundtrip. Qed.
+Proof. exact NvLayoutProofs.parse_print_kernel_roundtrip_from_layout. Qed.
 Print Assumptions parse_print_kernel_roundtrip.
+
+(** EVERY layout of the file, not only the one accel-sim's tracer writes.  A
+    layout ([NvLayout.layout]) fixes per position: the comment lines (text
+    starting with the character #, or blank; [#traces format], [#BEGIN_TB],
+    [#END_TB] are such lines) after the header, before each thread-block line,
+    between a warp line and its insts line, after the last warp of each block
+    and at the end of the file; and the number of blank lines after each
+    thread-block line, before each instruction and after each warp's
+    instructions.  These are exactly the places where the reader tolerates
+    such lines.  [wf_layout] only says that the lines put there are comment
+    lines.  Whatever the layout - in particular the compact one without any
+    marker or blank line, where the line that ends the header or a block's
+    warps is the next thread-block line - the parse returns every field that
+    was serialised. *)
+Theorem parse_print_layout_roundtrip : forall (lay : layout) (k : kernel),
+  wf_layout lay -> valid_kernel k ->
+  parse_kernel (print_layout lay k) = Some (k_hdr k, map expected_block (k_blocks k)).
+Proof. exact NvLayoutProofs.parse_print_layout_roundtrip. Qed.
+Print Assumptions parse_print_layout_roundtrip.
+
+(** the accel-sim layout is the printer of the theorems above; it, the compact
+    layout and the compact layout with [n] blank lines everywhere (the three
+    the harness always writes) are layouts *)
+Theorem print_layout_accel : forall k : kernel, print_layout accel_layout k = print_kernel k.
+Proof. exact NvLayoutProofs.print_layout_accel. Qed.
+Print Assumptions print_layout_accel.
+
+Theorem layouts_written_wf :
+  wf_layout accel_layout /\ wf_layout compact_layout /\ forall n, wf_layout (compact_blanks_layout n).
+Proof. exact (conj wf_accel_layout (conj wf_compact_layout wf_compact_blanks_layout)). Qed.
+Print Assumptions layouts_written_wf.
+
+(** nothing is lost, whichever two layouts the files were written in *)
+Theorem parse_print_layout_exact : forall (lay1 lay2 : layout) (k1 k2 : kernel),
+  wf_layout lay1 -> wf_layout lay2 -> valid_kernel k1 -> valid_kernel k2 ->
+  parse_kernel (print_layout lay1 k1) = parse_kernel (print_layout lay2 k2) -> k1 = k2.
+Proof. exact NvLayoutProofs.parse_print_layout_exact. Qed.
+Print Assumptions parse_print_layout_exact.
+
+(** The line search must test the current line first
+    ([goToNextlineWithPrefixIncludingNow]).  With a search that advances
+    before testing ([parse_kernel_adv]) the accel-sim layout still parses, but
+    of three thread blocks written compactly only the second is returned. *)
+Theorem advance_first_refuted :
+  exists k, valid_kernel k /\
+    parse_kernel (print_layout compact_layout k) = Some (k_hdr k, map expected_block (k_blocks k)) /\
+    parse_kernel_adv (print_kernel k) = parse_kernel (print_kernel k) /\
+    parse_kernel_adv (print_layout compact_layout k)
+      = Some (k_hdr k, map expected_block (firstn 1 (skipn 1 (k_blocks k)))).
+Proof. exact NvLayoutProofs.advance_first_refuted. Qed.
+Print Assumptions advance_first_refuted.
 
 Theorem parse_print_kernel_exact : forall k1 k2 : kernel,
   valid_kernel k1 -> valid_kernel k2 -> parse_kernel (print_kernel k1) = parse_kernel (print_kernel k2) -> k1 = k2.
